@@ -16,6 +16,7 @@ from __future__ import annotations
 
 import json
 import random
+import re
 import shutil
 import uuid
 from collections import defaultdict
@@ -643,22 +644,34 @@ def _replay_part(args):
     rep = Report(property_id="C16", tier="", seed=seed)
     stdout = _STDOUTS[idx]
     infos = {t["t"]: t for t in tagged_lines(stdout, "TREE")}
-    by_tree: dict[int, list] = defaultdict(list)
-    for e in tagged_lines(stdout, "EDGE"):
-        by_tree[e[0]].append(e)
-    judge: dict[int, dict] = defaultdict(dict)
-    for s in tagged_lines(stdout, "STATE"):
-        judge[s["t"]][hkey(s["h"])] = s["j"]
-    if not by_tree:
+    # index the raw lines per tree first; decode one tree at a time (memory)
+    raw_e: dict[int, list] = defaultdict(list)
+    raw_s: dict[int, list] = defaultdict(list)
+    pe, ps = '<<"EDGE", "[', '<<"STATE", "'
+    tkey = re.compile(r'\\"t\\":(\d+)')
+    for line in stdout.splitlines():
+        if line.startswith(pe):
+            raw_e[int(line[len(pe):line.index(",", len(pe))])].append(line)
+        elif line.startswith(ps):
+            m = tkey.search(line)
+            if not m:
+                return {"error": f"STATE line without tree id: {line[:120]}"}
+            raw_s[int(m.group(1))].append(line)
+    if not raw_e:
         return {"error": f"no EDGE lines in part {idx} of {label}"}
+    acts: dict[str, int] = defaultdict(int)
     out = {"edges": 0, "paths": 0, "same": 0, "diff": 0, "trees": 0, "canary": False, "isolated": 0,
            "sample": None, "error": None}
     try:
-        for t, edges in sorted(by_tree.items()):
+        for t in sorted(raw_e):
             info = infos[t]
             if only_tree and (info["par"], info["has"]) != (only_tree["par"], only_tree["has"]):
                 continue
-            rp = Replayer(rep, info, edges, judge[t], label)
+            edges = list(tagged_lines("\n".join(raw_e.pop(t)), "EDGE"))
+            judge = {hkey(x["h"]): x["j"] for x in tagged_lines("\n".join(raw_s.pop(t, [])), "STATE")}
+            for e in edges:
+                acts[e[4][0] + ("Rejected" if e[6] else "")] += 1
+            rp = Replayer(rep, info, edges, judge, label)
             if canary and not out["canary"]:
                 canary_edge(rp, edges)
                 out["canary"] = True
@@ -677,10 +690,6 @@ def _replay_part(args):
                 break
     except tlc.MachineryError as e:
         return {"error": str(e)}
-    acts: dict[str, int] = defaultdict(int)
-    for edges in by_tree.values():
-        for e in edges:
-            acts[e[4][0] + ("Rejected" if e[6] else "")] += 1
     out["actions"] = dict(acts)
     out["violations"] = [(v.signature, v.detail, v.scenario) for v in rep.violations]
     out["distinct"] = rep.distinct
